@@ -156,6 +156,18 @@ func ResetTask() {
 	st.cur = &task{}
 }
 
+// BeginCall gives the current task a fresh step counter: the step budget
+// bounds one API call (one evaluation), not a whole history.
+func BeginCall() {
+	if st == nil || st.cur == nil {
+		return
+	}
+	if st.cur.steps > st.probes.MaxSteps {
+		st.probes.MaxSteps = st.cur.steps
+	}
+	st.cur.steps = 0
+}
+
 // ---------------------------------------------------------------------------
 // hashing
 
